@@ -137,8 +137,8 @@ MUTANTS = [
      "edits": [(P, CTOR_LEX, "        self.lexer = lex.lex(object=self, debug=False, debuglog=log)\n        try:\n            from simple_ddl_parser import parsetab as _pt\n            self.yacc = yacc.yacc(module=self, debug=False, debuglog=log, tabmodule=_pt, optimize=True)\n        except Exception:\n            self.yacc = yacc.yacc(module=self, debug=False, debuglog=log)\n")]},
     {"id": "c20_no_write_tables", "prop": "C20", "needs": "NOT a breakage (the property does not require repairing the cache): must stay quiet", "expect": "quiet",
      "edits": [(P, "yacc.yacc(module=self, debug=False, debuglog=log)", "yacc.yacc(module=self, debug=False, debuglog=log, write_tables=False)")]},
-    {"id": "c20_hand_edited_action", "prop": "C20", "needs": "shipped table with matching signature but one edited action (static clause)",
-     "script": "edit_action"},
+    {"id": "c20_hand_edited_action", "prop": "C20", "needs": "shipped table with matching signature but one edited action (static clause); the edited entry is hit by the repository's tests, so this one only exercises the static clause",
+     "script": "edit_action", "tests_may_fail": True},
     {"id": "c20_old_version_accepted", "prop": "C20", "needs": "old-version / stale cache swallowed: a broad except falls back to a parser cached at module level from whatever table was on disk",
      "edits": [(P, "class Parser:\n", "_LAST = {}\n\n\nclass Parser:\n"),
                (P, CTOR_LEX, "        self.lexer = lex.lex(object=self, debug=False, debuglog=log)\n        import ply.yacc as _y\n        _real = _y.__tabversion__\n        try:\n            import simple_ddl_parser.parsetab as _pt\n            _y.__tabversion__ = getattr(_pt, \"_tabversion\", _real)\n        except Exception:\n            pass\n        try:\n            self.yacc = yacc.yacc(module=self, debug=False, debuglog=log, optimize=True)\n        finally:\n            _y.__tabversion__ = _real\n")]},
@@ -207,14 +207,14 @@ def run_one(m, budget, all_props, base):
             tier = m.get("tier", "quick") if p == m["prop"] else "quick"
             env = dict(os.environ, VERIF_REPO=tree, VERIF_BUDGET_S=str(budget), VERIF_NO_EVIDENCE="1")
             env.pop("PYTHONPATH", None)
-            c = subprocess.run([PY, os.path.join(HERE, "check.py"), p, tier], cwd=VERIF, env=env,
+            c = subprocess.run([PY, os.path.join(SNAP, "dst", "check.py"), p, tier], cwd=SNAP, env=env,
                                stdout=subprocess.PIPE, stderr=subprocess.STDOUT, text=True, timeout=3600)
             vio = [ln for ln in c.stdout.splitlines() if ln.startswith("VIOLATION")]
             ora = [ln.strip() for ln in c.stdout.splitlines() if ln.strip().startswith("oracle=")]
             out["checks"][p] = {"rc": c.returncode, "violations": len(vio), "first": (ora[0][:200] if ora else ""),
                                 "tail": c.stdout.strip().splitlines()[-1][:200] if c.stdout.strip() else ""}
         own = out["checks"][m["prop"]]
-        out["ok"] = out["tests_pass"] and ((own["rc"] == 1) if out["expect"] == "caught" else (own["rc"] == 0))
+        out["ok"] = (out["tests_pass"] or m.get("tests_may_fail", False)) and ((own["rc"] == 1) if out["expect"] == "caught" else (own["rc"] == 0))
     except Exception as e:  # noqa
         out["error"] = repr(e)[:300]
         out["ok"] = False
@@ -224,7 +224,23 @@ def run_one(m, budget, all_props, base):
     return out
 
 
+SNAP = VERIF
+
+
 def main():
+    """Runs against a frozen copy of the machinery, so /verif can be edited while a batch runs."""
+    global SNAP
+    SNAP = tempfile.mkdtemp(prefix="verif-snap-", dir="/dev/shm" if os.path.isdir("/dev/shm") else None)
+    for d in ("dst", "corpus"):
+        shutil.copytree(os.path.join(VERIF, d), os.path.join(SNAP, d), ignore=shutil.ignore_patterns("__pycache__"))
+    shutil.copyfile(os.path.join(VERIF, "known_findings.txt"), os.path.join(SNAP, "known_findings.txt"))
+    try:
+        return _main()
+    finally:
+        shutil.rmtree(SNAP, ignore_errors=True)
+
+
+def _main():
     a = sys.argv[1:]
     only = set(a[a.index("--only") + 1].split(",")) if "--only" in a else None
     prop = a[a.index("--prop") + 1] if "--prop" in a else None
